@@ -831,4 +831,4 @@ mod tests {
 
 #[cfg(kani)]
 #[path = "/verif/units/kani/free_list.rs"]
-mod verif_kani;
+pub(crate) mod verif_kani;
